@@ -176,8 +176,13 @@ def run(tier, seed, replay=None):
         rb, rf = rb["omit"][0], rf["omit"][0]
         rp = {"kind": f.kind, "base_qml": base.source, "faulted_qml": faulted.source, "faulty_object": f.obj.name_hint(),
               "base_ui": rb.get("ui"), "faulted_ui": rf.get("ui"), "faulted_diagnostics": rf.get("diagnostics")}
-        if rb.get("panic") or rf.get("panic"):
-            v.inconc("panic (C07): %s" % (rb.get("panic") or rf.get("panic")))
+        if rb.get("panic"):
+            v.inconc("panic on the fault-free document (C07): %s" % rb.get("panic"))
+            continue
+        if rf.get("panic"):
+            # the fault-free document translates; with the fault planted the translation dies: no form, no diagnostic
+            v.violation("no-form:" + f.kind, "faulted document (%s) yields no form in omit mode: the translation panics (%s)"
+                        % (f.kind, rf["panic"][:160]), rp)
             continue
         if not doccheck.accepted(rb):
             n_skipped += 1
